@@ -474,7 +474,33 @@ class _ExtractWindowHelper(ast.NodeTransformer):
         return node
 
 
+class _KeptIntervalSolutions(ast.NodeTransformer):
+    """A *correct* memo: SplitOptimProblem.optimize solves intervals with identical data once - the key holds everything
+    OptimProblem.optimize reads (vectors, matrix content, mapping, nodal records). Behaviour-preserving; the memo rule must stay silent."""
+
+    def visit_ClassDef(self, node):
+        self.generic_visit(node)
+        if node.name != "SplitOptimProblem":
+            return node
+        for f in node.body:
+            if isinstance(f, ast.FunctionDef) and f.name == "optimize":
+                for i, st in enumerate(f.body):
+                    if isinstance(st, ast.For) and ast.unparse(st.iter) == "self.ops" and st.body and isinstance(st.body[0], ast.Assign) \
+                            and isinstance(st.body[0].value, ast.Call) and ast.unparse(st.body[0].value.func) == "op.optimize":
+                        call = ast.unparse(st.body[0].value)
+                        tgt = ast.unparse(st.body[0].targets[0])
+                        new = ast.parse(
+                            "k_ = (op.c.tobytes(), op.l.tobytes(), op.u.tobytes(), None if op.b is None else np.asarray(op.b).tobytes(), op.cType,\n"
+                            "      None if op.A is None else op.A.toarray().tobytes(), op.mapping.to_json(), str(op.map_nodal_restr))\n"
+                            "if k_ not in solved_:\n    solved_[k_] = %s\n%s = solved_[k_]\n" % (call, tgt)).body
+                        st.body[0:1] = new
+                        f.body.insert(i, ast.parse("solved_ = {}").body[0])
+                        break
+        return node
+
+
 TWINS = {
+    "kept-interval-solutions-complete-key": _KeptIntervalSolutions,
     "extract-window-helper": _ExtractWindowHelper,
     "keyword-arguments-30pct": _KeywordSomeArguments,
     "mirror-comparisons-30pct": _MirrorSomeComparisons,
